@@ -189,6 +189,7 @@ def run(tier, seed):
                         'interleavings of has_next_event/load_next_event): a state machine over run-time file contents']
     _file_index(rep, prog)
     _delivers(rep, prog, rd)
+    _skips_empty(rep, prog)
     return rep
 
 
@@ -407,3 +408,59 @@ def _delivers(rep, prog, rd):
             None if ok else ['`return false` is reached through the test(s) %s, which the premises do not decide: a stored '
                              'record for which it fails is parsed but never delivered; the next record overwrites it and the '
                              'window shifts' % ', '.join('`%s` (line %d)' % (c, l) for l, c in culprits[:3])])
+
+
+# ---------------------------------------------------------------- READER.skips-empty
+def _skips_empty(rep, prog):
+    """every function of the reader that opens a stream leaves it either positioned on a record or closed"""
+    rep.rule('READER.skips-empty', 'after a file is opened, every path to the normal return of the opening function passes a test of '
+             'eof() on the new stream (after skipping white space) whose true arm closes the file and, unless the reader is then '
+             'terminated, opens the next one: an empty file is never left as the current stream (the next header extraction would '
+             'fail, or a next event would be announced that cannot be loaded)')
+    nopen = 0
+    for (qn, _), f in sorted(prog.functions.items()):
+        if f.get('cls') != 'bxdecay0::event_reader' or not f.get('body'):
+            continue
+        F = cppflow.Flow(f)
+        opens = [n for n in F.nodes(kind='call') if n.stmt[1].endswith('unique_ptr::reset') and len(n.stmt[2]) == 2 and
+                 n.stmt[2][1][0] == 'op' and n.stmt[2][1][1] == 'new' and 'ifstream' in ir.fmt(n.stmt[2][1])]
+        opens += [n for n in F.nodes(kind='assign') if 'ifstream' in ir.fmt(n.stmt[2]) and n.stmt[2][0] == 'op' and n.stmt[2][1] == 'new']
+        for o in opens:
+            nopen += 1
+            stream = ir.fmt(o.stmt[2][0]) if o.kind == 'call' else ir.fmt(o.stmt[1])
+            tests = [b for b in F.nodes(kind='branch') if 'eof' in ir.fmt(b.stmt[1]) and F.dominates(o, b)]
+            rets = [n for n in F.g.nodes if n.kind == 'return' and n.id in F.reach(o.id)]
+            # must-pass-through: removing the eof tests, no return is reachable from the open
+            cut = {b.id for b in tests}
+            seen, st = set(), [o.id]
+            leak = None
+            while st:
+                i = st.pop()
+                if i in seen or i in cut:
+                    continue
+                seen.add(i)
+                if F.g.nodes[i].kind == 'return':
+                    leak = F.g.nodes[i]
+                    break
+                st.extend(F.g.nodes[i].succ)
+            ok = bool(tests) and leak is None
+            why = None
+            if ok:
+                # the true arm: close, then re-open unless terminated
+                b = tests[0]
+                arm = F.reach(b.succ[0]) - F.reach(b.succ[1]) | {b.succ[0]}
+                closes = [n for n in F.nodes(kind='call') if n.id in arm and n.stmt[1].endswith('_close_current_file_')]
+                reopens = [n for n in F.nodes(kind='call') if n.id in arm and n.stmt[1].endswith('_open_new_file_')]
+                loops_back = o.id in F.reach(b.succ[0]) and o.id not in F.reach(b.succ[1])      # iterative form: back to the open
+                ok = bool(closes) and ((bool(reopens) and all(F.dominates(closes[0], r) for r in reopens)) or loops_back)
+                if not ok:
+                    why = ['the arm taken at end of file does not close the file and then open the next one (close: %s, re-open: %s)'
+                           % ([n.line for n in closes], [n.line for n in reopens])]
+            else:
+                why = ['line %s returns with the stream opened at line %d never tested for eof(): an empty file stays the current '
+                       'stream; the roll-over in load_next_event() steps over one exhausted file only, so two consecutive empty files, '
+                       'a window starting behind an empty file, or two loads without has_next_event() in between hit "Invalid/'
+                       'corrupted event format"' % (leak.line if leak is not None else '?', o.line)]
+            rep.add('READER.skips-empty', '%s:%d' % (f['name'], nopen), where(f, o.line),
+                    '%s: the stream %s opened here is left on a record or closed' % (f['name'], stream[:50]), ok, why)
+    rep.floor('READER.skips-empty', nopen, 1)
